@@ -51,6 +51,7 @@ from ser import Ids, Ser, Unsupported, ser, deser
 from props import c01 as K
 
 LEAN_MODULE = "Optyx.Props.C15"
+EXTRA_MODULES = ["Optyx.Props.PinsC15"]   # transcription anchors (harness/source_pins.py)
 THEOREMS = [
     "Optyx.Props.C15.gradIter_eq",
     "Optyx.Props.C15.gradIter_tree",
@@ -65,6 +66,7 @@ THEOREMS = [
     "Optyx.Props.C15.denote_leftDeep_add_eq_vectorised",
     "Optyx.Props.C15.denote_leftDeep_sub_div",
     "Optyx.Props.C15.leftDeep_depth",
+    "Optyx.Props.PinsC15.anchors",
 ]
 ASSUMPTIONS = [
     "PARTIAL: 'no RecursionError within the supported depth' is about CPython's stack (1000 frames): measured at "
